@@ -123,6 +123,12 @@ func runPolyPkg(c *mon.Ctx, P *iops.PolyPkg, race bool) {
 		check(c, "Polynomial.Equal", N+"/Polynomial.Equal/mismatch", P.Equal(a, cpVec(a)) && P.Equal(a, b) == eqVec(a, b), func() string {
 			return fmt.Sprintf("Equal(%s,%s)", hxs(a), hxs(b))
 		})
+		for _, dl := range []int{0, len(a), len(a) + 1} {
+			r := P.Set(dl, a)
+			check(c, "Polynomial.Set", N+"/Polynomial.Set/value-mismatch-or-shared-memory", eqVec(r, a), func() string {
+				return fmt.Sprintf("receiver len %d: Set(%s) = %s after zeroing the argument", dl, hxs(a), hxs(r))
+			})
+		}
 		c.Class(fmt.Sprintf("%s/arith/%d,%d", N, pr[0], pr[1]))
 	}
 
